@@ -4,7 +4,7 @@ import runner_props
 PROP = "C05"
 LEAN_MODULES = ["PamsProps.C05"]
 NAMESPACES = ["Pams.C05"]
-DRIVERS = ["Runner", "Pure"]
+DRIVERS = ["Runner", "Pure", "Sim"]
 TRUSTED = [
     "scheduler model treats markets, agents, user events and random draws as oracles (tape recorded from the real run through public extension points: simulator_class, registered agent/market/event classes, prng subclass, Logger subclass)",
     "user-written agents/events are assumed not to reach into private state of sessions/markets (the built-in TradingHaltRule, which does, is modelled: its flag switches are part of the tape)",
